@@ -9,7 +9,7 @@
      pkg/haproxy/instance.go        HAProxyUpdate (deferred Commit, lastFailed), writeCrtLists,
                                     writeConfig (main file always, shards only ChangedShards), Reload
    as they are after the fix commits c6e0f62, f296c05, 742b5de (C05), 348fb25, 7d37a3e (C12) and d8ef0ec (default backend moved to an existing backend).
-   Backends.PathsChanged (eddac89: a path added in place by strict-host; 5f38159: a server alias
+   Backends.PathsChanged (eddac89: a path added in place by strict-host; d265498: a server alias
    that moved from one host to another) is left out: strict-host is off and no two hosts ask
    for the same alias in the histories the model is compared on.
 
